@@ -124,15 +124,14 @@ def rule_X5(ctx) -> None:
                 continue
             n += 1
             from_path, alias = holes[0], holes[-1]
-            # variables (parameter-derived leaves) of the import path vs of the alias
-            def leaves(t):
-                return {show(x) for x in walk(t) if x[0] == "call" and dotted(x[1]) == "len"} | {x[1] for x in walk(t) if x[0] == "n" and x[1] in ("current_package", "py_package", "py_type")}
-            need = leaves(from_path)
-            got = leaves(alias)
-            lens_from = {l for l in need if l.startswith("len(")}
-            lens_alias = {l for l in got if l.startswith("len(")}
-            if "current_package" in need and "current_package" not in got and not (lens_from & lens_alias):
-                bad = (q, show(alias), sorted(need - got))
+            # repeat counts in the import path ('.' * distance): the alias has to contain the same distance term
+            def repeats(t):
+                return [x[3] if x[2][0] == "c" else x[2] for x in walk(t) if x[0] == "op" and x[1] == "*" and len(x) == 4 and
+                        (x[2][0] == "c" and isinstance(x[2][1], str) or x[3][0] == "c" and isinstance(x[3][1], str))]
+            need = repeats(from_path)
+            missing = [d for d in need if not contains(alias, d)]
+            if need and missing:
+                bad = (q, show(alias), [show(d) for d in missing])
         name = f"{q}:alias-depends-on-distance"
         if bad:
             ctx.refuted("X5", name, ",".join(bad[2])[:60], mod.loc(fn),
